@@ -236,7 +236,8 @@ class AttackGraph():
             serialized_attack_steps[ag_node.full_name] =\
                 ag_node.to_dict()
         for attacker in self.attackers:
-            serialized_attackers[attacker.name] = attacker.to_dict()
+            # Attacker names do not have to be unique, their ids are
+            serialized_attackers[attacker.id] = attacker.to_dict()
         return {
             'attack_steps': serialized_attack_steps,
             'attackers': serialized_attackers,
